@@ -948,6 +948,11 @@ func (interp *Interpreter) cfg(root *node, sc *scope, importPath, pkgName string
 			if err != nil {
 				break
 			}
+			if n.typ != nil && isUntypedConst(c0) && (isUntypedConst(c1) || isShiftNode(n) && c1.rval.IsValid()) {
+				// An operation on untyped constants is an untyped constant, whatever the type
+				// expected by the context, which is checked when the constant is used.
+				n.typ = c0.typ
+			}
 
 			switch n.action {
 			case aRem:
@@ -2468,6 +2473,11 @@ func fixUntyped(nod *node, sc *scope) {
 		}
 		return true
 	}, nil)
+}
+
+// isUntypedConst returns true if n is an untyped constant with an exact value.
+func isUntypedConst(n *node) bool {
+	return n.typ.untyped && n.rval.IsValid() && isConstantValue(n.rval.Type())
 }
 
 func compDefineX(sc *scope, n *node) error {
